@@ -1,14 +1,15 @@
 (* Model side of the wire probe (C06, C07, C10 reader half): same case lines, same output lines.
 
    case lines
-     msg <allow> <deny> <order> <keyhex> <valuehex>
-     vo  <allow> <deny> <order> <keyver> <group> <topic> <partition> <valver|T> <offset> <epoch> <metadata> <ts> <expire>
-     vm  <allow> <deny> <order> <group> <valver|T> <ptype> <generation> <protocol> <leader> <statets> <nmembers> {member}
+     msg <name> <cluster> <allow> <deny> <order> <keyhex> <valuehex>
+     vo  <name> <cluster> <allow> <deny> <order> <keyver> <group> <topic> <partition> <valver|T> <offset> <epoch> <metadata> <ts> <expire>
+     vm  <name> <cluster> <allow> <deny> <order> <group> <valver|T> <ptype> <generation> <protocol> <leader> <statets> <nmembers> {member}
          member := <id> <instance> <clientid> <host> <rebalance> <session> <subscription> <assignment>
          assignment := N | E | A <ver> <ntopics> {<topic> <nparts> {<part>}} <userdata>
      re  <allow> <deny> <grouphex>
-     c10m <a_set> <a_m> <d_set> <d_m> <order> <keyhex> <valuehex>     (second phase of the C10 reader cases: the four
+     c10m <name> <cluster> <a_set> <a_m> <d_set> <d_m> <order> <keyhex> <valuehex>     (second phase of the C10 reader cases: the four
           booleans are what the probe's real regexps answered for the message's group; see checks/c10_wire.py)
+   <name> / <cluster>: the consumer module's own name and the cluster it is configured for (hex).
    strings: N = null, - = empty, else hex.  <allow>/<deny> index the pattern pool below (0 = not set).
 
    output lines
@@ -16,7 +17,7 @@
      vo/vm : K <keyhex> V <valuehex> => <as msg>
      re : ACC 0|1
      c10m : <as msg, without the | part, lists as given> || <the same with no lists>
-   req := <kind> test <group> <topic> <partition> <offset> <timestamp> <order> <owner> <clientid>, sorted *)
+   req := <kind> <clusterhex> <group> <topic> <partition> <offset> <timestamp> <order> <owner> <clientid>, sorted *)
 open Model
 open Vutil
 
@@ -56,36 +57,42 @@ let variant () : bool * bool =
   | Some "bounds-only" -> (true, false)
   | _ -> (true, true)
 
-let fmt_req (r : request) : string =
+let fmt_req ((c, r) : z list * request) : string =
   let h = hex_of_bytes in
   match r with
-  | SetConsumerOffset (g, t, p, off, ts, order) -> cat [ "offset"; "test"; h g; h t; sz p; sz off; sz ts; sz order; "-"; "-" ]
-  | SetConsumerOwner (g, t, p, owner, cid) -> cat [ "owner"; "test"; h g; h t; sz p; "0"; "0"; "0"; h owner; h cid ]
-  | ClearConsumerOwners g -> cat [ "clear"; "test"; h g; "-"; "0"; "0"; "0"; "0"; "-"; "-" ]
-  | DeleteGroup g -> cat [ "delete"; "test"; h g; "-"; "0"; "0"; "0"; "0"; "-"; "-" ]
+  | SetConsumerOffset (g, t, p, off, ts, order) -> cat [ "offset"; h c; h g; h t; sz p; sz off; sz ts; sz order; "-"; "-" ]
+  | SetConsumerOwner (g, t, p, owner, cid) -> cat [ "owner"; h c; h g; h t; sz p; "0"; "0"; "0"; h owner; h cid ]
+  | ClearConsumerOwners g -> cat [ "clear"; h c; h g; "-"; "0"; "0"; "0"; "0"; "-"; "-" ]
+  | DeleteGroup g -> cat [ "delete"; h c; h g; "-"; "0"; "0"; "0"; "0"; "-"; "-" ]
 
-let fmt_outcome (o : outcome) : string =
+let fmt_outcome (o : outcome_for) : string =
   match o with
-  | Crash MakeSliceLen -> "CRASH | makeslice"
-  | Crash FuelExhausted -> "CRASH | model-fuel-exhausted"
-  | Done (rs, al) ->
+  | CrashFor MakeSliceLen -> "CRASH | makeslice"
+  | CrashFor FuelExhausted -> "CRASH | model-fuel-exhausted"
+  | DoneFor (rs, al) ->
       let l = List.sort compare (List.map fmt_req rs) in
       "OK " ^ string_of_int (List.length l) ^ (if l = [] then "" else " " ^ String.concat " ; " l)
       ^ " | A " ^ sz (sumz al)
 
-let process allow deny key value order : string =
+let next_cfg t : reader_cfg =
+  let name = bytes_of_hex (next t) in let cluster = bytes_of_hex (next t) in
+  { rc_name = name; rc_cluster = cluster }
+
+let process cfg allow deny key value order : string =
   let (bounds, macc) = variant () in
-  fmt_outcome (process_message_gen bounds macc (accept allow deny) key value order)
+  fmt_outcome (address cfg (process_message_gen bounds macc (accept allow deny) key value order))
 
 let msg t : string =
+  let cfg = next_cfg t in
   let allow = next_int t in let deny = next_int t in
   let order = next_z t in
   let key = bytes_of_hex (next t) in let value = bytes_of_hex (next t) in
-  process allow deny key value order
+  process cfg allow deny key value order
 
 let next_str t = opt_of_tok (next t)
 
 let vo t : string =
+  let cfg = next_cfg t in
   let allow = next_int t in let deny = next_int t in
   let order = next_z t in
   let kv = next_z t in let g = next_str t in let tp = next_str t in let p = next_z t in
@@ -96,7 +103,7 @@ let vo t : string =
     if vv = "T" then []
     else enc_offset_value (zs vv) { ov_offset = off; ov_leader_epoch = epoch; ov_metadata = md;
                                     ov_commit_ts = ts; ov_expire_ts = expire } in
-  "K " ^ hex_of_bytes key ^ " V " ^ hex_of_bytes value ^ " => " ^ process allow deny key value order
+  "K " ^ hex_of_bytes key ^ " V " ^ hex_of_bytes value ^ " => " ^ process cfg allow deny key value order
 
 let read_assignment t : asg_field =
   match next t with
@@ -113,6 +120,7 @@ let read_assignment t : asg_field =
   | s -> failwith ("drv_wire: assignment tag " ^ s)
 
 let vm t : string =
+  let cfg = next_cfg t in
   let allow = next_int t in let deny = next_int t in
   let order = next_z t in
   let g = next_str t in
@@ -130,7 +138,7 @@ let vm t : string =
     if vv = "T" then []
     else enc_meta_value (zs vv) { mv_ptype = ptype; mv_generation = gen; mv_protocol = protocol;
                                   mv_leader = leader; mv_state_ts = statets; mv_members = members } in
-  "K " ^ hex_of_bytes key ^ " V " ^ hex_of_bytes value ^ " => " ^ process allow deny key value order
+  "K " ^ hex_of_bytes key ^ " V " ^ hex_of_bytes value ^ " => " ^ process cfg allow deny key value order
 
 let re t : string =
   let allow = next_int t in let deny = next_int t in
@@ -143,13 +151,14 @@ let strip_info (s : string) : string =
   | _ -> s
 
 let c10m t : string =
+  let cfg = next_cfg t in
   let b () = next_int t <> 0 in
   let a_set = b () in let a_m = b () in let d_set = b () in let d_m = b () in
   let order = next_z t in
   let key = bytes_of_hex (next t) in let value = bytes_of_hex (next t) in
   let acc = reader_accept a_set a_m d_set d_m in
-  strip_info (fmt_outcome (process_message (fun _ -> acc) key value order)) ^ " || "
-  ^ strip_info (fmt_outcome (process_message (fun _ -> true) key value order))
+  strip_info (fmt_outcome (process_message_for cfg (fun _ -> acc) key value order)) ^ " || "
+  ^ strip_info (fmt_outcome (process_message_for cfg (fun _ -> true) key value order))
 
 let run (line : string) : string =
   let t = toks_of_line line in
